@@ -77,6 +77,10 @@ func primaryKeyText(v interface{}) string {
 		return strconv.FormatFloat(x, 'f', -1, 64)
 	case float32:
 		return strconv.FormatFloat(float64(x), 'f', -1, 32)
+	case []byte:
+		// the bytes themselves: an image carries a binary key as a byte slice ("[1 254]" under %v), the current row
+		// carries it as the text that holds those bytes
+		return string(x)
 	case time.Time:
 		// the instant, not the way its location is written ("+0800 CST" from the driver, "+0800 +0800" from an image)
 		return x.UTC().Format(time.RFC3339Nano)
